@@ -2,8 +2,10 @@ package worker
 
 import (
 	"fmt"
+	"os"
 	"sort"
 	"strings"
+	"time"
 
 	cluster "github.com/envoyproxy/go-control-plane/envoy/config/cluster/v3"
 	core "github.com/envoyproxy/go-control-plane/envoy/config/core/v3"
@@ -404,6 +406,10 @@ func (c *xdsClient) onSotwResponse(step int, resp *discovery.DiscoveryResponse) 
 	var rs []nr
 	for _, a := range resp.Resources {
 		n := resourceName(t, a)
+		if os.Getenv("VERIF_DEBUG_RDS") != "" && t == v3.RouteType {
+			fmt.Fprintf(os.Stderr, "debug-rds: %s step=%d version=%s route %s allow_any=%v block_all=%v at %s\n", c.name, step, resp.VersionInfo, n,
+				strings.Contains(string(a.Value), "allow_any"), strings.Contains(string(a.Value), "block_all"), time.Now().Format("15:04:05.000"))
+		}
 		rs = append(rs, nr{n, a.Value})
 		ev.names = append(ev.names, n)
 		c.markAnswered(t, n)
